@@ -83,7 +83,7 @@ Qed.
 Lemma eqb_oaddr_refl x : eqb_oaddr x x = true.
 Proof. destruct x; cbn; auto. apply N.eqb_refl. Qed.
 Lemma eqb_iout_refl x : eqb_iout x x = true.
-Proof. destruct x as [[|t]|]; cbn; auto. apply eqb_oaddr_refl. Qed.
+Proof. destruct x as [[|t|a b]|]; cbn; auto; [apply eqb_oaddr_refl | rewrite !Bool.eqb_reflx; reflexivity]. Qed.
 Lemma eqb_ilog_refl l : eqb_ilog l l = true.
 Proof. induction l as [|[[a b] t] r IH]; cbn; auto. rewrite !N.eqb_refl, Z.eqb_refl, IH. reflexivity. Qed.
 
@@ -95,7 +95,7 @@ Qed.
 
 Lemma imon_step_model c : imon_step (imodel_item c) = true.
 Proof.
-  unfold imon_step, imodel_item, istep. destruct c as [[a|old] w]; cbn [ic_op ic_world].
+  unfold imon_step, imodel_item, istep. destruct c as [[a|old| |n] w]; cbn [ic_op ic_world]; [| |reflexivity|reflexivity].
   - destruct (iverify_identity w a) as [lg|] eqn:V; cbn [ii_call ii_out ii_log ic_op ic_world]; [|reflexivity].
     pose proof (verify_iff w a) as I. rewrite V in I. cbn [is_ok] in I. rewrite <- I. cbn [andb].
     destruct (verify_asks_trusted w a lg V) as (idn & Hid & Fa). rewrite Hid.
